@@ -179,7 +179,7 @@ func (c *connection) stop() {
 		_ = c.conn.Close()
 		close(c.msgChan)
 		close(c.activeMsgChan)
-		close(c.activeMsgCompleteChan)
+		// activeMsgCompleteChan 写协程和超时协程都会发送 不能在这里关闭 否则会send on closed channel
 		close(c.reissuePackChan)
 	})
 }
@@ -258,14 +258,13 @@ func (c *connection) onActiveEvent(activeMsg *ActiveMessage, record map[uint16]*
 		}
 		go func(overtimeMsg *Message) {
 			time.Sleep(duration)
-			select {
-			case <-c.stopChan:
-				return
-			default:
-			}
 			overtimeMsg.ExtensionFields.Err = errors.Join(ErrWriteDataOverTime,
 				fmt.Errorf("overtime is [%.2f]second", duration.Seconds()))
-			c.activeMsgCompleteChan <- overtimeMsg
+			select {
+			case <-c.stopChan:
+				// 连接已经结束 写协程退出的时候会回复等待中的请求
+			case c.activeMsgCompleteChan <- overtimeMsg:
+			}
 		}(replyMsg)
 	}
 }
